@@ -62,9 +62,22 @@ def work(cases):
                 exp = sorted(tuple(p) for p in case["expect"])
                 got1 = sorted(((v.id - base) // w, (v.id - base) % w) for v in a.four_neighbors(case["y"], case["x"]))
                 got2 = sorted(((v.id - base) // w, (v.id - base) % w) for v in a.four_neighbors((case["y"], case["x"])))
-                got3 = sorted(a.four_neighbor_indices(case["y"], case["x"]))
-                rec["nbr_ok"] = (got1 == exp and got2 == exp and got3 == exp)
-                rec["nbr_got"] = [got1, got2, got3]
+                lst = a.four_neighbor_indices(case["y"], case["x"])
+                got3 = sorted(lst)
+                # what a call returns is the caller's: editing it must not show in what a later call returns
+                # (neither on this array nor on another array of the same shape)
+                if isinstance(lst, list):
+                    lst.append(("edited", "by the caller"))
+                    del lst[0:1]
+                nb = a.four_neighbors(case["y"], case["x"])
+                if hasattr(nb, "data") and isinstance(nb.data, list):
+                    nb.data.append(None)
+                other = mk(dict(case["ops"][0], base=len(s.variables)))
+                got4 = sorted(a.four_neighbor_indices(case["y"], case["x"]))
+                got5 = sorted(other.four_neighbor_indices(case["y"], case["x"]))
+                got6 = sorted(((v.id - base) // w, (v.id - base) % w) for v in a.four_neighbors(case["y"], case["x"]))
+                rec["nbr_ok"] = (got1 == exp and got2 == exp and got3 == exp and got4 == exp and got5 == exp and got6 == exp)
+                rec["nbr_got"] = [got1, got2, got3, got4, got5, got6]
                 out.append(rec)
                 continue
             if form in ("helper", "method"):
